@@ -40,7 +40,7 @@ def scenarios(tier, seed):
                     b2 = b
                 for hist in range(8):
                     n += 1
-                    if not thorough and (n + seed) % 3:
+                    if not thorough and (n + seed) % 3 and hist != 7:
                         continue
                     sc = gen.with_tol(gen.base(m, a, b2, abs(b2 - a) / 8.0, problem=prob, y0=y0, dense=True))
                     if sc.get("rtol") and prob in ("rat", "tdep"):
@@ -73,7 +73,15 @@ def scenarios(tier, seed):
                         if prob != "osc":
                             continue
                         sc["problem"], sc["constants"] = "osck", {"k": 1.0}
-                        sc["ops"] = [{"op": "integrate", "t": Q(0.5)}, {"op": "set", "what": "constants", "v": {"k": 3.0}}, {"op": "integrate"}]
+                        var = (n + seed) % 4
+                        if var == 0:
+                            sc["ops"] = [{"op": "integrate", "t": Q(0.5)}, {"op": "set", "what": "constants", "v": {"k": 3.0}}, {"op": "integrate"}]
+                        elif var == 1:      # edited in place
+                            sc["ops"] = [{"op": "integrate", "t": Q(0.5)}, {"op": "set", "what": "constants-inplace", "v": {"k": 3.0}}, {"op": "integrate"}]
+                        elif var == 2:      # replaced before the first run
+                            sc["ops"] = [{"op": "set", "what": "constants-inplace", "v": {"k": 3.0}}, {"op": "integrate", "t": Q(0.5)}, {"op": "integrate"}]
+                        else:               # replaced, then reset(): the run starts again with the new constants
+                            sc["ops"] = [{"op": "integrate", "t": Q(0.5)}, {"op": "set", "what": "constants", "v": {"k": 3.0}}, {"op": "reset"}, {"op": "integrate"}]
                     else:
                         # an EVENT FUNCTION raises in the middle of the run (event handling is the one place that consults the dense
                         # output while the run is in progress); a user lookup after the failure, then the run is resumed without events
